@@ -33,7 +33,7 @@ STUB = ["SdSimulation worker threads run serially (the models are deterministic;
 ASSUMPTIONS = ["after a session passed step-level settings for an element to a scenario, that scenario's OWN results are not judged until it is explicitly re-parameterised for that element (the property does not say whether step settings outlive the session); all other scenarios and the base models stay under the oracle",
                "the fresh-model oracle shares the DSL core with the system (its correctness is C01, not claimed)"]
 FAULT_KINDS = []
-PROBES = ["session_over_scenarios_on_different_grids", "observed_together_with_sibling", "sibling_on_another_grid", "hybrid_manager", "managers_share_base_object", "points_setting", "runspec_setting", "step_level_setting", "rest_run_setting", "session_left_open",
+PROBES = ["hybrid_scenarios_with_lookup_properties", "session_over_scenarios_on_different_grids", "observed_together_with_sibling", "sibling_on_another_grid", "hybrid_manager", "managers_share_base_object", "points_setting", "runspec_setting", "step_level_setting", "rest_run_setting", "session_left_open",
           "scenario_added_later", "session_with_foreign_operations", "step_settings_expire_with_the_session", "sparse_observation", "rest_run_over_two_scenarios", "point_edited_in_place", "session_over_two_managers", "scenario_registered_again", "run_over_two_managers", "name_known_to_one_manager_only"]
 EXHAUSTIVE = {"quick": False, "thorough": False}
 
@@ -122,13 +122,19 @@ def generate_hybrid(rng):
         sc["init"] = [["a", rng.choice([1, 2, 4])], ["b", rng.choice([0, 1, 3])]]
     names = ["s%d" % n for n in range(len(scs))]
     ops = []
+    lookups = None
+    if rng.random() < 0.5:
+        # the model carries a graphical function; some scenarios replace it through a Lookup-type property (at registration or later)
+        lookups = [rng.choice([None, [[0.0, float(2 + n)], [10.0, float(5 * (n + 1))]]]) for n in range(len(scs))]
     for _ in range(rng.randint(3, 7)):
         r = rng.random()
         if r < 0.6:
             ops.append({"op": "run", "scenarios": rng.sample(names, rng.randint(1, len(names)))})
+        elif lookups is not None and r < 0.8:
+            ops.append({"op": "set_lookup", "scenario": rng.choice(names), "points": [[0.0, rng.choice([7.0, 9.0])], [10.0, rng.choice([0.0, 3.0])]]})
         else:
             ops.append({"op": "reset_cache", "scenario": rng.choice(names)})
-    return {"property": PROPERTY, "kind": "hybrid", "scenarios": scs, "ops": ops}
+    return {"property": PROPERTY, "kind": "hybrid", "scenarios": scs, "ops": ops, "lookups": lookups}
 
 
 def execute_hybrid(case, prop="C06"):
@@ -148,9 +154,39 @@ def execute_hybrid(case, prop="C06"):
             solo[names[n]] = canon({repr(t): v for t, v in ms[0].statistics().items()})
             solo_has_output[names[n]] = isinstance(o1, dict) and "s0" in o1.get("smAbm", {})
             b1.destroy()
-        b, models = W.build_bptk(scs)
+        lookups = case.get("lookups")
+        b, models = W.build_bptk(scs, lookups=lookups)
         state = {nm: "fresh" for nm in names}
         res.probe("hybrid_manager")
+        tbl = None
+        if lookups is not None:
+            res.probe("hybrid_scenarios_with_lookup_properties")
+            tbl = {nm: ([list(x) for x in lookups[n]] if lookups[n] is not None else [list(x) for x in W.BASE_TBL]) for n, nm in enumerate(names)}
+
+        def check_tables(k, op):
+            """every scenario reads ITS table (the one its Lookup property gave it, else the model's), the registered model its own"""
+            if tbl is None:
+                return True
+            for n, nm in enumerate(names):
+                got = models[n].points.get("tbl")
+                if got is None or [list(x) for x in got] != tbl[nm]:
+                    res.violate(prop + ".other-scenario-changed", {"scenario": nm, "after_op": op, "op_index": k, "graphical_function": "tbl",
+                                                                   "got": got, "expected": tbl[nm]})
+                    return False
+                try:
+                    v = float(models[n]._lookup(5.0, "tbl"))      # (what sd.lookup(x, "tbl") calls)
+                except Exception as e:
+                    v = "exc:" + type(e).__name__
+                want = (tbl[nm][0][1] + tbl[nm][1][1]) / 2.0
+                if v != want:
+                    res.violate(prop + ".other-scenario-changed", {"scenario": nm, "after_op": op, "op_index": k, "lookup(5.0)": v, "expected": want})
+                    return False
+            got = b._verif_base_model.points.get("tbl")
+            if got is None or [list(x) for x in got] != [list(x) for x in W.BASE_TBL]:
+                res.violate(prop + ".base-model-changed", {"after_op": op, "op_index": k, "graphical_function": "tbl", "got": got})
+                return False
+            return True
+        check_tables(-1, None)
         for k, op in enumerate(case["ops"]):
             log.add("op", k, op)
             try:
@@ -166,9 +202,16 @@ def execute_hybrid(case, prop="C06"):
                     if missing:
                         res.violate(prop + ".hybrid-no-results", {"op": op, "missing": missing, "op_index": k})
                         break
+                elif op["op"] == "set_lookup":
+                    # what REST /run does with settings.<manager>.<scenario>.properties
+                    if tbl is not None:
+                        b.get_scenario("smAbm", op["scenario"]).configure_properties({"tbl": {"type": "Lookup", "value": [list(x) for x in op["points"]]}})
+                        tbl[op["scenario"]] = [list(x) for x in op["points"]]
                 else:
                     b.reset_scenario_cache(scenario_manager="smAbm", scenario=op["scenario"])
                     state[op["scenario"]] = "reset" if state[op["scenario"]] != "fresh" else "fresh"
+                if not res.violations and not check_tables(k, op):
+                    break
             except Exception as e:
                 res.violate(prop + ".operation-raised", {"op": op, "exception": type(e).__name__, "message": str(e)[:120]})
                 break
